@@ -106,6 +106,15 @@ class Ctx:
         if n < 3:
             self.growth.append((key, detail or {}))
 
+    def run_growth(self, fn, name: str):
+        """Run a growth module (specification beyond the listed property) at the end of a host check.
+        Whatever happens inside - deviations, exceptions of the implementation, machinery trouble - is
+        reported as GROWTH-FINDING and never changes the verdict of the host property."""
+        try:
+            fn(self)
+        except Exception as e:  # noqa: BLE001
+            self.growth_finding(f'growth module {name} could not complete: {type(e).__name__}', {'exception': str(e)[:400]})
+
     def case(self, nontrivial_id=None, n: int = 1):
         """Count evaluated cases; `nontrivial_id` (hashable) marks a distinct non-trivial case."""
         self.evaluations += n
@@ -292,9 +301,20 @@ def main(argv=None):
         tb = traceback.extract_tb(e.__traceback__)
         inner = tb[-1] if tb else None
         msg = f'{type(e).__name__}: {e}'
-        from_impl = inner is not None and '/scippneutron/' in inner.filename.replace('\\', '/')
+        # "inside scippneutron": some frame of the traceback below the driver belongs to the package under
+        # test (the innermost one may be in scipp / numpy, which scippneutron called)
+        impl_frames = [f for f in tb if '/scippneutron/' in f.filename.replace('\\', '/')]
+        from_impl = bool(impl_frames)
+        if from_impl:
+            inner = impl_frames[-1]
         nonfinite = isinstance(e, (OverflowError, ZeroDivisionError, FloatingPointError)) or any(
             w in msg for w in ('NaN', 'nan', 'Infinity', 'infinity'))
+        if ctx.violations and not (from_impl or nonfinite):
+            # violations were already established before the driver broke: report them
+            try:
+                return ctx.finish() or 2
+            except Exception:  # noqa: BLE001
+                pass
         if from_impl or nonfinite:
             where = f'{Path(inner.filename).name}:{inner.name}' if inner else '?'
             if from_impl:
